@@ -221,7 +221,7 @@ func (P *Prog) renamedFunc(rel, typ, name string) *ssa.Function {
 			second = s
 		}
 	}
-	if bestFn != nil && best >= 0.8 && best-second >= 0.15 {
+	if bestFn != nil && best >= 0.7 && best-second >= 0.2 {
 		baseMu.Lock()
 		renamesSeen = append(renamesSeen, fmt.Sprintf("%s → %s (fingerprint similarity %.2f)", fnKey(rel, typ, name), bestFn.Name(), best))
 		baseMu.Unlock()
@@ -287,7 +287,7 @@ func (P *Prog) renamedField(rel, typ string, path []string, st *types.Struct) *t
 			second = s
 		}
 	}
-	if bestF != nil && best >= 0.8 && best-second >= 0.15 {
+	if bestF != nil && best >= 0.6 && best-second >= 0.2 {
 		baseMu.Lock()
 		renamesSeen = append(renamesSeen, fmt.Sprintf("field %s → %s (same users %.2f)", fieldKey(rel, typ, path), bestF.Name(), best))
 		baseMu.Unlock()
